@@ -70,6 +70,7 @@ def api(cargo_ver: str) -> str:
 # leading ``-`` of the pre-release section and identifiers within it), or the
 # ``+`` that introduces build metadata.
 _SEMVER_TOK_RE = re.compile(r'(\d+)|([A-Za-z-][0-9A-Za-z-]*)|(\+.*)')
+_SEMVER_IDENT_RE = re.compile(r'[0-9A-Za-z-]+')
 
 
 class SemVer:
@@ -94,30 +95,28 @@ class SemVer:
         vec: list[int | str]
         if isinstance(in_, str):
             vec = []
-            pre = False
             specified_count = 0
             for m in _SEMVER_TOK_RE.finditer(in_):
                 if m.group(1):
-                    if pre or specified_count < 3:
+                    if specified_count < 3:
                         vec.append(int(m.group(1)))
-                        if not pre:
-                            specified_count += 1
+                        specified_count += 1
                 elif m.group(2):
-                    ident = m.group(2)
-                    if not pre:
-                        # The leading ``-`` is just a section marker.
-                        if ident.startswith('-'):
-                            ident = ident[1:]
-                            if not ident:
-                                continue
-                        while len(vec) < 3:
-                            vec.append(0)
-                        vec.append(-1)
-                        pre = True
-                    # A numeric identifier directly after the ``-`` marker is
-                    # matched by the identifier alternative of the regex, but
-                    # it must still compare numerically (SemVer 11.4.1).
-                    vec.append(int(ident) if ident.isdigit() else ident)
+                    # The leading ``-`` is just a section marker.
+                    start = m.start() + (1 if m.group(2).startswith('-') else 0)
+                    # The pre-release section is a dot separated list of
+                    # identifiers up to the build metadata. The token regex
+                    # cannot be used for them: it would split an identifier
+                    # that starts with a digit ("0a", "1-x") in two.
+                    idents = _SEMVER_IDENT_RE.findall(in_[start:].split('+', 1)[0])
+                    if not idents:
+                        continue
+                    while len(vec) < 3:
+                        vec.append(0)
+                    vec.append(-1)
+                    # A numeric identifier must compare numerically (SemVer 11.4.1).
+                    vec.extend(int(i) if i.isdigit() else i for i in idents)
+                    break
                 else:
                     break  # +build metadata: discard the rest
         else:
